@@ -25,12 +25,14 @@ type Call struct {
 }
 
 type Case struct {
-	Icpt   string    `json:"icpt"`
-	Domain string    `json:"domain"`
-	Pool   []string  `json:"pool"`
-	Ops    []life.Op `json:"ops"`
-	Calls  []Call    `json:"calls"`
-	Paths  []string  `json:"paths"`
+	Icpt string `json:"icpt"`
+	// ViaGroup: the router is made by Group.New with its own WithURLDomain(Domain) while the group was given another one
+	ViaGroup bool      `json:"via_group"`
+	Domain   string    `json:"domain"`
+	Pool     []string  `json:"pool"`
+	Ops      []life.Op `json:"ops"`
+	Calls    []Call    `json:"calls"`
+	Paths    []string  `json:"paths"`
 }
 
 func tokenNames(p string) []string {
@@ -74,6 +76,7 @@ func genValue(t *rapid.T, pm *pat.Param) string {
 func gen(t *rapid.T) Case {
 	cfg := pat.GenCfg(t, true)
 	c := Case{Icpt: cfg.IcptName, Domain: rapid.SampledFrom([]string{"", "", "https://x.io", "https://x.io/", "//cdn/"}).Draw(t, "domain")}
+	c.ViaGroup = rapid.IntRange(0, 3).Draw(t, "viaGroup") == 0
 	c.Pool = pat.GenPool(t, cfg, rapid.IntRange(2, rig.Up(10)).Draw(t, "npool"))
 	if rapid.IntRange(0, 3).Draw(t, "registerAll") > 0 {
 		c.Ops = append(c.Ops, life.Op{Kind: "handleMany", Patterns: c.Pool, Methods: []string{"GET"}})
@@ -153,6 +156,11 @@ func gen(t *rapid.T) Case {
 func check(c Case, st *rig.Stats) error {
 	env := rig.NewEnv()
 	s := life.NewSys(env, c.Icpt, rig.Opts{Extra: []mux.Option{mux.WithURLDomain(c.Domain)}})
+	if c.ViaGroup {
+		g := env.NewGroup(mux.WithURLDomain("https://group.example"))
+		own, _ := env.Options(rig.Opts{Icpt: s.Icpt, Extra: []mux.Option{mux.WithURLDomain(c.Domain)}})
+		s.R = &rig.Router{Router: g.New("r", nil, own...), Env: env, NotFound: g.NotFound}
+	}
 	for _, op := range c.Ops {
 		s.Apply(op)
 	}
